@@ -340,14 +340,13 @@ C06 += [
         note="hwloc_nolibxml_look_init on the document head %s followed by 4 arbitrary bytes + NUL (exact-size allocation): returns 0/-1, memory safe, on success the tag cursor points inside the buffer; sscanf model for the one format used" % head)
     for tag, head in (("version", '"<topology version=\\"2.0\\""'), ("v1", '"<topology"'), ("root", '"<roo"'), ("xmldecl", '"<?xml version=\\"1.0\\"?>\\n<topology version=\\"2.0\\""'), ("empty", '""'))
 ]
-def _xi(name, unwind=8, cost=120, **kw):
-    return Job(name=name, driver="xml.drv.c", entry=kw.pop("entry", "hp_" + name), mode="plain", unwind=unwind, min_post=0, cost=cost, family="xmlimport", label="bounded", timeout=1500, objbits=12, **kw)
-XML_IMPORT_WIP = [
+def _xi(name, unwind=11, cost=120, **kw):
+    return Job(name=name, driver="xml.drv.c", entry=kw.pop("entry", "hp_" + name), mode="plain", unwind=unwind, min_post=0, cost=cost, family="xmlimport", label="bounded", timeout=1500, objbits=12,
+               unwindset="hwloc__xml_import_distances.0:6,hwloc__xml_import_distances.3:4,hwloc__xml_import_distances.1:4,hwloc__xml_import_distances.2:4,hwloc___xml_import_info.0:7,verif_exact_string.0:4", **kw)
+C06 += [
     _xi("xml_import_distances.n%d" % n, entry="hp_xml_import_distances", defines={"XNBOBJS": n}, note="[nbobjs attribute = %d] " % n + "hwloc__xml_import_distances (distances2 / distances2hetero) against the CONTRACT of the XML state API: any sequence of <= 5 attributes (names from the pool of every name the function knows plus an unknown one, values arbitrary strings <= 2 chars), <= 3 children (info / indexes / u64values / unknown, <= 2 attributes each) with arbitrary contents <= 3 chars, any numbers, any topology flags and XML version: memory safe (stores into the arrays sized from nbobjs stay inside), returns 0/-1, hands at most one complete matrix to the core")
     for n in (2,)
 ]
-# not registered: the SAT back end runs out of memory on this job (DESIGN.md section 3, C06); kept for the next session
-PROPS["C06WIP"] = XML_IMPORT_WIP
 PROPS["C06"] = C06 + [j for j in C05 if j.name.startswith("base64_decode_safe")]   # the decoder is also a leaf of the XML import (userdata)
 
 
